@@ -3,7 +3,7 @@ from .. import core, gen
 from . import vcdfam, c08
 
 PID = "C09"
-LEVEL = "translation_validation"
+LEVEL = "proof"
 RULE = ("abstract declaration trees (scopes of every accepted kind, variables of every accepted kind, widths 0..4096, bit ranges "
         "[i] / [msb:lsb] with negative bounds and optional spaces, 0..3 extra bracket groups, dense / gapped / hashed identifier "
         "codes with aliases, re-opened same-named scopes, empty scope names, $attrbegin misc 02/03/04 extensions, $date/$version/"
